@@ -224,3 +224,25 @@ Section ProcessInv.
     eapply R_trans; [apply step_R|]. apply IH.
   Qed.
 End ProcessInv.
+
+(* an accepted transaction has run its top-level handler successfully, on the world after the funds transfer *)
+Lemma run_tx_ok_handle w sender target m funds w' :
+  run_tx w sender target m funds = Ok w' ->
+  exists w1 w2 subs, same_contracts w w1 /\ handle w1 target sender funds m = Ok (w2, subs).
+Proof.
+  unfold run_tx, FUEL. rewrite process_cons. unfold exec_sub. cbn [plain sm_msg sm_reply sm_id wants_success wants_error].
+  destruct (match funds with [] => (Ok w, w_fault w) | _ => bank_call w (fun b => bank_send b sender target funds) end)
+    as [[w1|e1] fl] eqn:Eb; cbn [fst]; [|discriminate].
+  assert (Hs : same_contracts w w1).
+  { destruct funds; [inversion Eb; subst; apply same_contracts_refl | eapply bank_call_same; eauto]. }
+  destruct (handle w1 target sender funds m) as [[w2 subs]|e] eqn:Eh; cbn [fst]; [|discriminate].
+  intros _. eauto.
+Qed.
+
+Lemma step_tx_ok_handle w sender target m funds :
+  snd (step w (Tx sender target m funds)) = true ->
+  exists w1 w2 subs, same_contracts w w1 /\ handle w1 target sender funds m = Ok (w2, subs).
+Proof.
+  cbn [step]. destruct (run_tx w sender target m funds) eqn:E; cbn [snd]; [|discriminate].
+  intros _. eapply run_tx_ok_handle; eauto.
+Qed.
